@@ -28,7 +28,7 @@
 (* calls these actions in, `Atomic` and `OldOrNew` hold (checked by TLC).  *)
 (*                                                                         *)
 (* PART 2 names the DEVIATIONS an implementation may exhibit (OpenLive,    *)
-(* RenameUnfinished, RemoveLive, MoveLive).  They are not part of `Next`; the trace  *)
+(* RenameUnfinished, RemoveLive, MoveLive, AppendLive).  They are not part of `Next`; the trace  *)
 (* specification AtomicFile_trace uses them to *explain* what the code did *)
 (* so that the verdict is "invariant Atomic is false in recorded state i", *)
 (* never "the spec cannot follow".                                         *)
@@ -91,15 +91,20 @@ OpenTmp(p) == /\ CanOpenTmp(p)
               /\ hs' = [hs EXCEPT ![p] = "ok"]
 
 CanWrite(p) == hs[p] # "none"
-Write(p) == CanWrite(p) /\ UNCHANGED <<fs, hs>>              \* still partial: more may follow
-WriteFail(p) == CanWrite(p) /\ hs' = [hs EXCEPT ![p] = "bad"] /\ UNCHANGED fs      \* short write
+(* (a handle in state "app" was opened for appending and has not written yet: the content is still what it was) *)
+Write(p) == /\ CanWrite(p)                                   \* still partial: more may follow
+            /\ IF hs[p] = "app" THEN fs' = [fs EXCEPT ![p] = Part(upd)] /\ hs' = [hs EXCEPT ![p] = "ok"]
+               ELSE UNCHANGED <<fs, hs>>
+WriteFail(p) == /\ CanWrite(p) /\ hs' = [hs EXCEPT ![p] = "bad"]                    \* short write
+                /\ fs' = IF hs[p] = "app" THEN [fs EXCEPT ![p] = Part(upd)] ELSE fs
 
 (* done: the writer has issued every write it intended (it was not interrupted by an exception) *)
 Close(p, done) == /\ CanWrite(p)
-                  /\ fs' = [fs EXCEPT ![p] = IF done /\ hs[p] = "ok" THEN Full(fs[p].v) ELSE Part(fs[p].v)]
+                  /\ fs' = IF hs[p] = "app" THEN fs
+                           ELSE [fs EXCEPT ![p] = IF done /\ hs[p] = "ok" THEN Full(fs[p].v) ELSE Part(fs[p].v)]
                   /\ hs' = [hs EXCEPT ![p] = "none"]
 CloseFail(p) == /\ CanWrite(p)                               \* buffered data lost
-                /\ fs' = [fs EXCEPT ![p] = Part(fs[p].v)]
+                /\ fs' = IF hs[p] = "app" THEN fs ELSE [fs EXCEPT ![p] = Part(fs[p].v)]
                 /\ hs' = [hs EXCEPT ![p] = "none"]
 
 CanRename(s, d) == s \in Tmp /\ d \in Live /\ hs[s] = "none" /\ fs[s].k = "complete"
@@ -138,6 +143,11 @@ CanRenameUnfinished(s, d) == s \in Tmp /\ d \in Live /\ fs[s].k # "missing" /\ ~
 RenameUnfinished(s, d) == /\ CanRenameUnfinished(s, d)  \* rename of a temp file that is still open or whose write failed
                           /\ fs' = [fs EXCEPT ![d] = Part(fs[s].v), ![s] = Missing]
                           /\ hs' = [hs EXCEPT ![d] = hs[s], ![s] = "none"]
+
+CanAppendLive(p) == p \in Live
+AppendLive(p) == /\ CanAppendLive(p)                   \* open(live, 'a'): an existing file keeps its content until something is
+                 /\ fs' = [fs EXCEPT ![p] = IF @.k = "missing" THEN Part(upd) ELSE @]     \* written, a MISSING one is created empty:
+                 /\ hs' = [hs EXCEPT ![p] = "app"]                                       \* published before the new version exists
 
 CanRemoveLive(p) == p \in Live /\ fs[p].k # "missing"
 RemoveLive(p) == CanRemoveLive(p) /\ fs' = [fs EXCEPT ![p] = Missing] /\ UNCHANGED hs
@@ -272,7 +282,7 @@ LatestAfterCleanUpdate == (pc = "idle" /\ hist # <<>> /\ hist[Len(hist)].f = "no
                              Read(hist[Len(hist)].t) = mem[hist[Len(hist)].t]
 
 TypeOK == /\ \A p \in Paths : fs[p].k \in {"missing", "partial", "complete"} /\ fs[p].v \in 0..MaxUpd
-          /\ \A p \in Paths : hs[p] \in {"none", "ok", "bad"}
+          /\ \A p \in Paths : hs[p] \in {"none", "ok", "bad", "app"}
           /\ upd \in 0..MaxUpd /\ crashed \in BOOLEAN /\ nw \in 0..NW
           /\ pc \in {"idle", "open", "write", "failclose", "rename", "abort"}
 
